@@ -83,12 +83,12 @@ def arc_shapes(size, pred=lambda a, b, c, d: True):
 
 
 add(fam("arc", arc_shapes(1), Q2_KINDS) + ["h_arc::ctor"] +
-    fam("arc", ["s2n2022", "s2n1111", "s2n0212", "s2n1121"], ["look", "put"]),
+    fam("arc", ["s2n2011", "s2n1111", "s2n0211", "s2n1121"], ["look", "put"]) + ["h_arc::s2n2022::put", "h_arc::s2n0222::put"],
     ARC_STEP, "quick", 3,
     "AdaptiveCache<u8,u8>: size 1 (all 12 occupancies) and four full-cache occupancies of size 2; p symbolic in "
-    "0..=size (enumerated where it steers control); one operation; keys by pattern enumeration", mem=4, quick_for=["C09"])
+    "0..=size (enumerated where it steers control); one operation; keys by pattern enumeration", mem=6, quick_for=["C09"])
 add(fam("arc", arc_shapes(2), Q2_KINDS), ARC_STEP, "thorough", 3,
-    "AdaptiveCache<u8,u8>: size 2, all 54 occupancies; one operation; keys by pattern enumeration", mem=4)
+    "AdaptiveCache<u8,u8>: size 2, all 54 occupancies; one operation; keys by pattern enumeration", mem=8, tmul=2)
 add(fam("arc", ["s1n0000", "s1n1000", "s1n0100", "s1n0010", "s1n0001"], ["symkeys_put", "symkeys_look"]),
     ARC_STEP + ["C17"], "thorough", 3,
     "AdaptiveCache<u8,u8>: size 1, sparse occupancies with symbolic pairwise-distinct keys (cross-check)", mem=10)
@@ -97,7 +97,7 @@ add(fam("arc", ["s1n0000", "s1n1000", "s1n0100", "s1n0010", "s1n0001"], ["symkey
 add(["h_tlfu::r2l3::"], ["C11", "C05", "C16"], "quick", 3,
     "TinyLFU<u64, identity KeyHasher>, no_std sketch: arbitrary state with 4 counters per row, 512-bit doorkeeper, "
     "1..=3 probes, samples and w full usize range, hashes full u64; one operation; single-key history of 4 operations",
-    mem=6)
+    mem=6, quick_for=["C11"])
 add(["h_tlfu::r4l7::"], ["C11", "C05", "C16"], "thorough", 3,
     "TinyLFU: arbitrary state with 8 counters per row, 512-bit doorkeeper, 1..=7 probes; single-key history of 6 operations",
     mem=10, tmul=2)
@@ -138,11 +138,11 @@ add(["h_ctor::raw_all_constructors", "h_ctor::sampled_constructors", "h_ctor::ti
     "constructors/builders: RawLRU (all four, cap full usize), SegmentedCache/AdaptiveCache (sizes <= 3), TwoQueueCache "
     "(sizes 1 and 3, ratio = arbitrary f64 bit pattern), TinyLFU::new (size, samples <= 4; invalid class: arbitrary f64; "
     "valid class: ratio grid), WTinyLFUCache (grid of zero/non-zero sizes, ratio grid incl. NaN/inf/out-of-range; "
-    "new(size<=400)), SampledLFU (all seven); conversions From<[_;N]>/Vec/&[_]/FromIterator with N <= 2", mem=6,
+    "new(size<=400)), SampledLFU (all seven); conversions From<[_;N]>/Vec/&[_]/FromIterator with N <= 2", mem=8,
     quick_for=["C05"])
 add(["h_ctor::twoq_with_2q_parameters_sym"], ["C08"], "quick", 4,
     "TwoQueueCache::with_2q_parameters at sizes 1 and 3 with the recent ratio an arbitrary f64 bit pattern: quota and ghost "
-    "bound == floor(size x ratio)", mem=6)
+    "bound == floor(size x ratio)", mem=8)
 add(["h_ctor::wtinylfu_ctor_sizes"], ["C10"], "quick", 4, "WTinyLFUCache::with_sizes over zero/non-zero sizes: capacities as requested", mem=6)
 add(["h_ctor::tinylfu_ctor_valid_grid", "h_ctor::tinylfu_new_usable"], ["C11"], "quick", 4,
     "TinyLFU::new(size, samples <= 4, ratio grid): shape of a new estimator; first access on sizes 1..3", mem=6)
@@ -168,14 +168,15 @@ add(["h_misc::cb::c2n2h", "h_misc::cb::c3n3", "h_misc::cb::c3n2"], ["C15"], "tho
 add(["h_misc::putresult_structural"], ["C12"], "quick", 4, "PutResult<u8,u8>: two arbitrary values; ==, clone, copy")
 add(["h_misc::boxed::"], ["C02", "C03"], "quick", 4,
     "RawLRU<Box<u8>,u8> (heap-owning keys) cap <= 2, lookups through &u8 (Borrow), one operation, cache dropped", mem=6)
-add(["h_misc::own::raw_", "h_misc::own::slru_n21", "h_misc::own::twoq"], ["C04", "C03"], "quick", 4,
+add(["h_misc::own::raw_c1n1", "h_misc::own::raw_c2n2", "h_misc::own::raw_c2n1", "h_misc::own::slru_n21", "h_misc::own::twoq"], ["C04", "C03"], "quick", 4,
     "drop-counting tokens as keys and values: RawLRU cap <= 2, SegmentedCache (2,2) with 3 entries, TwoQueueCache size 2 with "
     "full ghost list; one operation (put fresh/resident, remove, get, purge, resize), results dropped, cache dropped; CBMC "
     "memory-leak check on", mem=8, cbmc=["--memory-leak-check"], tmul=2)
 add(["h_misc::own::slru_n22", "h_misc::own::arc"], ["C04", "C03"], "thorough", 4,
     "drop-counting tokens: SegmentedCache (2,2) full, AdaptiveCache size 2 with full ghost lists; memory-leak check on",
     mem=10, cbmc=["--memory-leak-check"], tmul=3)
-add(["h_iter::n0::", "h_iter::n1::", "h_iter::n2::", "h_iter::twoq_", "h_iter::arc_"], ["C14", "C13"], "quick", 4,
+add(["h_iter::n0::", "h_iter::n1::", "h_iter::n2::", "h_iter::twoq_recent", "h_iter::twoq_frequent", "h_iter::twoq_ghost",
+     "h_iter::arc_recent", "h_iter::arc_frequent", "h_iter::arc_recent_evict", "h_iter::arc_frequent_evict"], ["C14", "C13"], "quick", 4,
     "all 12 RawLRU iterator kinds on every state with len <= 2 (symbolic keys/values), symbolic interleaving of "
     "next/next_back of length len+2, clone independence, writes through mutable iterators; the 30+40 per-list iterator "
     "accessors of TwoQueueCache / AdaptiveCache on a size-2 state with all lists occupied", mem=4)
@@ -190,7 +191,7 @@ add(["h_raw::c0n0::", "h_raw::c1n1::", "h_raw::c2n2::", "h_raw::c2n1::put", "h_r
     CORE, "quick", 3,
     "core subset: RawLRU caps 0/1/2 (full and one partly filled occupancy), SegmentedCache (1,1) full and (2,2) fullest "
     "occupancies; one operation each", mem=3)
-add(fam("2q", ["s1g1n101", "s1g1n011", "s2g1n111"], ["look", "put"]) + ["h_2q::s1g1n101::bulk"] +
+add(fam("2q", ["s1g1n101", "s1g1n011", "s2g1n111", "s2g1n101"], ["look", "put"]) + ["h_2q::s1g1n101::bulk"] +
     fam("arc", ["s1n1010", "s1n0111", "s2n1111"], ["look", "put"]) + ["h_arc::s1n1011::bulk", "h_arc::ctor"] +
     fam("wtlfu", ["c111n111", "c111n110"], ["put", "peek"]) + ["h_wtlfu::c111n101::get", "h_wtlfu::c111n111::bulk"],
     CORE, "quick", 3,
